@@ -94,6 +94,14 @@ def tidSrp : Block := ⟨"tid_srp", 0, 24, [⟨"tpid_format", 0, 7, 2⟩, ⟨"pr
 /-- SAS TransportID: SAS ADDRESS at bytes 4–11 -/
 def tidSas : Block := ⟨"tid_sas", 0, 24, [⟨"tpid_format", 0, 7, 2⟩, ⟨"protocol_id", 0, 3, 4⟩, ⟨"sas_address", 4, 7, 64⟩]⟩
 
+/-- iSCSI TransportID header (SPC-4 7.6.4.6): FORMAT CODE, PROTOCOL IDENTIFIER (5h), ADDITIONAL LENGTH (n−3) at bytes 2–3 -/
+def tidIscsiHeader : Block := ⟨"tid_iscsi", 0, 4, [⟨"tpid_format", 0, 7, 2⟩, ⟨"protocol_id", 0, 3, 4⟩, ⟨"additional_length", 2, 7, 16⟩]⟩
+
+/-- iSCSI TransportID, format 00b: the ISCSI NAME, null-terminated and null-padded (`pad` ≥ 1 NUL bytes) -/
+def encTidIscsiName (name : List Nat) (pad : Nat) : List Nat :=
+  tidIscsiHeader.enc (fun k => if k = "protocol_id" then 5 else if k = "additional_length" then name.length + pad else 0)
+    ++ name ++ List.replicate pad 0
+
 /-- the fixed-size TransportID kinds: block, PROTOCOL IDENTIFIER, the library's key for the name, its bytes `[a, b)` -/
 structure TidKind where
   blk : Block
